@@ -45,7 +45,8 @@ def floors(tier):
             "counter:tolerance_sequences_checked": 10, "counter:continued_runs": 4, "counter:rejections_observed": 200,
             "class:prior-unif": 8, "class:prior-gamma": 5, "class:prior-norm": 5, "class:logscale": 5, "class:non-model-order": 8,
             "class:nearest-neighbours": 5, "class:tolerance-list": 3, "class:quantile": 10,
-            "class:infers-initial-state": 8, "class:tol-int": 8, "class:legacy-sampler": 6, "counter:recorded_tolerance_checks": 25, "class:three-or-more-unknowns": 6, "class:re-ordering-not-self-inverse": 3}
+            "class:infers-initial-state": 8, "class:tol-int": 8, "class:legacy-sampler": 6, "counter:recorded_tolerance_checks": 25, "class:three-or-more-unknowns": 6, "class:re-ordering-not-self-inverse": 3,
+            "counter:other_model_first_calls": 16}
 
 
 class AbcProbe:
@@ -152,6 +153,9 @@ def run_case(rng, idx, tier, lane, ctx):
     seed = np_seed(rng)
     y = c.y[:, 0] if c.y.shape[1] == 1 else c.y
     sample = dict(LC.describe(c), priors=desc, N=N, G=G, q=q, M=M, seed=seed)
+    if rng.random() < (0.7 if infer_states else 0.3):
+        # the session has used another model before: same definition declared in another order, its own loss object with free initial values
+        LC.other_model_first(rng, c, counters)
     np.random.seed(seed)
     try:
         c.m.parameters = list(c.theta)
